@@ -2,8 +2,9 @@
 # Builds the harness once (warms the Go build cache, including the race-instrumented std) from files on disk only.
 set -u
 export GOFLAGS=-mod=mod GOPROXY=off GOSUMDB=off GOTOOLCHAIN=local
-cd /verif/harness || exit 1
-mkdir -p /verif/.build /verif/evidence /verif/runs
+ROOT=$(cd "$(dirname "$0")" && pwd)
+cd "$ROOT/harness" || exit 1
+mkdir -p "$ROOT/.build" "$ROOT/evidence" "$ROOT/runs"
 go build -tags verif ./... || exit 1
 go build -tags verif -race ./... || exit 1
 echo setup ok
